@@ -52,7 +52,7 @@ def generate(tier, seed):
         cases.append({"cid": f"mix-free-{i}", "family": "mixture-free", "kind": "solve", "spec": spec,
                       "plan": {"solver": {"random_values": True}, "py_seed": seed + i}})
     # L7: the repository's own tests under the universal monitors (every tier)
-    cases.append({"cid": "suite-replay", "family": "suite", "kind": "suite", "jobs": 8})
+    cases.append({"cid": "suite-replay", "family": "suite", "kind": "suite", "jobs": 16})
     return cases
 
 
